@@ -374,6 +374,13 @@ TEMPLATES = {
  "optional-or-narrowing-rhs": ("let o: i32? = 5;\nlet fl: bool = true;\n", "if fl || o != none { let n: i32 = o; }"),
  "float-to-int": ("let fl: f64 = 1.5;\n", "let n: i32 = fl;"),
  "mixed-int-float": ("let fl: f64 = 1.5;\nlet iv: i32 = 2;\n", "let z := fl + iv;"),
+ # found on the unmodified tree through seeders' side notes, repaired by 071c136 / cadadb1 (the second one crashed the checker)
+ "float-literal-compound": ("let iv: i32 = 2;\n", "iv += 2.5;"),
+ "float-literal-compound-mul": ("let uv: u8 = 2;\n", "uv *= 1.5;"),
+ "catch-fallback-wider": ("let w: i64 = 5;\n", "let r: i32 = mayfail(1) catch w;"),
+ "catch-fallback-float": ("", "let r: i32 = mayfail(1) catch 2.5;"),
+ "optional-and-else-narrowing": ("let o: i32? = 5;\nlet fl: bool = true;\n", "if fl && o == none { } else { let n: i32 = o; }"),
+ "optional-or-narrowing-relational": ("let o: i32? = 5;\nlet k: i32 = 3;\n", "if k > 2 || o != none { let n: i32 = o; }"),
 }
 TEMPLATE_CONTEXTS = {
  "function": "fn ctx() {\n%s\n}\nfn main() { ctx(); }\n",
